@@ -123,7 +123,7 @@ PROPS = {
             'standin': True},
     # frame and ownership obligations of every function of a load that touches schema objects: the
     # modifies clauses name only matcher / loader state, results are fresh containers
-    'C13': {'functions': INFO_MATCH + MATCHER + LOADER_CFG + ['info.createDerivedSchema'], 'standin': True},
+    'C13': {'functions': INFO_MATCH + MATCHER + LOADER_CFG + ['info.createDerivedSchema', 'info.SectionType.getinfo'], 'standin': True},
     'C14': {'functions': CMDLINE + ['loader._get_config_loader'], 'standin': True},
     'C15': {'functions': [CFG + n for n in ('_normalize_case', 'nextline', 'start_section', 'end_section',
                                             'parse', 'handle_define')] + ['matcher.BaseMatcher.addValue'],
